@@ -12,6 +12,7 @@ from fractions import Fraction
 
 from ..astutil import (assigned_targets, call_name, calls_in, const_value, find_func, is_self_attr, names_in, parse_expr,
                        parse_stmt, replace_node, tuple_assign_pairs)
+from ..astutil import inline_single_defs
 from ..frontend import AnalysisError, Program, Module, set_parents, walk_function, walk_stmts
 from ..nf import RF, NFUnsupported, to_nf, _subst_atom
 from ..peval import Closure, call_closure, exec_block
@@ -734,9 +735,14 @@ def _r3_hotspot(ctx):
         raise AnalysisError("HotSpot.calc: threshold comparison not found")
     c = thr[0].value
     mask = thr[0].targets[0].id
-    maxdef = [s for s in calc.node.body if isinstance(s, ast.Assign) and isinstance(s.targets[0], ast.Name) and
+    maxdef = [s for s in walk_function(calc.node) if isinstance(s, ast.Assign) and isinstance(s.targets[0], ast.Name) and
               any(isinstance(x.func, ast.Attribute) and x.func.attr == "max" for x in calls_in(s.value))]
     maxname = maxdef[0].targets[0].id if maxdef else None
+    if maxname is not None:
+        alld = [s for s in walk_function(calc.node) if isinstance(s, ast.Assign) and isinstance(s.targets[0], ast.Name) and
+                s.targets[0].id == maxname]
+        if len(alld) != len([d_ for d_ in maxdef if d_.targets[0].id == maxname]):
+            maxname = None              # some definition of the reference value is not a maximum
     try:
         rhs = to_nf(c.comparators[0], atom=_atom_sym)
         ok_rhs = maxname is not None and rhs == to_nf(parse_expr("%s*%s" % (frac, maxname)), atom=_atom_sym)
@@ -765,21 +771,25 @@ def _r3_hotspot(ctx):
     if ok:
         region = sel[0].targets[0].id
         counter = cnt[0].target.id
+        init = [s for s in calc.node.body if isinstance(s, ast.Assign) and isinstance(s.targets[0], ast.Name) and
+                s.targets[0].id == counter]
+        # the label written in round r is r: the counter is advanced by one exactly once per round, and the value stored in the
+        # first round - the initial value, plus one if the increment precedes the store - is 1
+        first_label = None
+        if len(init) == 1 and isinstance(const_value(init[0].value), int):
+            first_label = const_value(init[0].value) + (1 if body.index(cnt[0]) < body.index(store[0]) else 0)
         ok = (isinstance(sel[0].value.args[0], ast.Name) and sel[0].value.args[0].id == mask
               and store[0].value.id == counter and norm_text(store[0].targets[0].slice) == region
               and isinstance(cnt[0].op, ast.Add) and const_value(cnt[0].value) == 1
-              and body.index(store[0]) < body.index(cnt[0])
+              and body.index(sel[0]) < body.index(store[0]) < body.index(rem[0])
               and isinstance(rem[0].op, ast.BitXor) and isinstance(rem[0].value, ast.Name) and rem[0].value.id == region
-              and norm_text(loop.test) == "%s.any()" % mask)
-        init = [s for s in calc.node.body if isinstance(s, ast.Assign) and isinstance(s.targets[0], ast.Name) and
-                s.targets[0].id == counter]
-        ok = ok and len(init) == 1 and const_value(init[0].value) == 1
+              and norm_text(loop.test) == "%s.any()" % mask and first_label == 1)
     if ok:
-        ctx.holds(calc, loop, "each round: region from the remaining mask, label = counter, counter += 1, region removed; "
-                  "labels start at 1")
+        ctx.holds(calc, loop, "each round: region from the remaining mask, label = round number (counter advanced by one per round, "
+                  "first label 1), region removed")
     else:
-        ctx.violated(calc, loop, "hot-spot numbering loop does not (seed from the remaining entries, store the counter, "
-                     "increment by one, remove the region) in that order", text="numbering loop")
+        ctx.violated(calc, loop, "hot-spot numbering loop does not (seed from the remaining entries, label the region with the round "
+                     "number starting at 1, remove the region)", text="numbering loop")
     hs = [f for k, f in prog.functions.items() if k.startswith("pylife.mesh.hotspot:HotSpot.") and "hs_sel" in k]
     if len(hs) != 1:
         raise AnalysisError("HotSpot seed routine not found")
@@ -804,6 +814,12 @@ def _r3_hotspot(ctx):
         for cc in calls_in(s.value):
             if isinstance(cc.func, ast.Attribute) and cc.func.attr == "isin":
                 lv = next((const_value(k.value) for k in cc.keywords if k.arg == "level"), None)
+                if lv is None:
+                    # <index>.get_level_values('<level>').isin(...) - possibly through a local
+                    recv = inline_single_defs(hs.node, cc.func.value)
+                    if isinstance(recv, ast.Call) and isinstance(recv.func, ast.Attribute) and recv.func.attr == "get_level_values" \
+                            and recv.args:
+                        lv = const_value(recv.args[0])
                 levels.add(lv)
     if levels == set(LEVELS):
         ctx.holds(hs, grow[0], "region grows over shared node_id and shared element_id membership")
